@@ -135,6 +135,8 @@ Outcome execute_plan(Property &prop, const Plan &plan, bool capture)
 	o.cov.swap(ctx.cov);
 	o.counters.swap(ctx.counters);
 	o.lines.swap(ctx.lines);
+	o.refine_op = ctx.refine_op;
+	o.refine_faults = ctx.refine_faults;
 	return o;
 }
 
@@ -670,6 +672,18 @@ static void worker_main(Property &prop, const Args &a, int w, uint64_t start, ui
 			continue;
 		// ---- violation: determinism gate (same plan again, same process) then shrink
 		std::string cls = sanitize_cls(o.v.cls);
+		if (o.refine_op >= 0 && (size_t)o.refine_op < plan.ops.size())
+		{
+			// make the fault that broke it explicit in the plan
+			Plan explicit_plan = plan;
+			explicit_plan.ops[(size_t)o.refine_op].faults = o.refine_faults;
+			Outcome oe = execute_plan(prop, explicit_plan);
+			if (oe.violated && sanitize_cls(oe.v.cls) == cls)
+			{
+				plan = explicit_plan;
+				o = oe;
+			}
+		}
 		Outcome o2 = execute_plan(prop, plan);
 		bool inproc_ok = o2.violated && sanitize_cls(o2.v.cls) == cls && o2.loghash == o.loghash;
 		Plan best = plan;
